@@ -2,6 +2,7 @@
 import io
 import os
 import shutil
+import sys
 import tempfile
 from fractions import Fraction
 
@@ -145,6 +146,23 @@ def expected_rows(doc):
 
     walk(branch, -1)
     return rows
+
+
+def nested_document(depth):
+    """`depth` splits nested inside each other, written and read WITHOUT recursion: the tree's first point, then for every level a split
+    whose first alternative holds one point and the next level, and whose second alternative is one point; the rows the property states:
+    the points in document order, a first-alternative point hangs from the point before its split (the previous level's point), a
+    second-alternative point from that same point"""
+    parts = ["( (Dendrite) (0 0 0 2)"]
+    rows = [(3, [Fraction(0), Fraction(0), Fraction(0), Fraction(2)], -1)]
+    for k in range(1, depth + 1):
+        parts.append(f"( ({k} 1 0 0.5)")
+        rows.append((3, [Fraction(k), Fraction(1), Fraction(0), Fraction(1, 2)], k - 1))
+    for k in range(depth, 0, -1):
+        parts.append(f"| ({k} -1 0.25 0.25) )")
+        rows.append((3, [Fraction(k), Fraction(-1), Fraction(1, 4), Fraction(1, 4)], k - 1))
+    parts.append(")")
+    return " ".join(parts), rows
 
 
 def _dec(s):
@@ -575,6 +593,15 @@ class Convert(Suite):
             d = ("Axon", b, None)
             text, _ = render(rng, d, layout=False)
             out.append({"class": "deep", "text": text, "rows": _ser(expected_rows(d)), "via": "stream"})
+        # nesting measured against the interpreter's recursion limit: C15 says "at any nesting depth", and the parser is recursive
+        # descent.  Below half the limit the document MUST convert; from half the limit on the unchanged library raises
+        # (ValueError from RecursionError: two frames per split) — a genuine defect recorded in known_findings.json under the key
+        # `asc-rejected/nested-beyond-half-limit` (DESIGN §6, D33), so that a change which lowers the depth the parser can take is
+        # still reported under `asc-rejected/nested`.
+        L = sys.getrecursionlimit()
+        for frac, cls in ([(0.3, "nested"), (0.42, "nested"), (0.6, "nested-beyond-half-limit")] + ([(0.15, "nested"), (2.0, "nested-beyond-half-limit")] if big else [])):
+            text, rows = nested_document(int(L * frac))
+            out.append({"class": f"{cls}/{frac}L", "text": text, "rows": _ser(rows), "via": "stream", "big": True})
         for npts in ([300, 5000] if big else [300]):
             d = ("Dendrite", ([[str(i % 50), "0", "0", "1"] for i in range(npts)], None), None)
             text, _ = render(rng, d, layout=False)
@@ -820,6 +847,8 @@ class Convert(Suite):
         return table_of(t)
 
     def lines(self, case, res):
+        if case["class"].startswith("nested-beyond-half-limit"):
+            return []          # the model converts such a document (it has no stack); what the code does is judged by the oracle alone
         if "exc" in res:
             return ([(f"asc cp={cps(case['text'])}", "error")] + _gasc_lines(case, res) + _gasclex_lines(case, res)) if res["exc"] == "ValueError" else []
 
